@@ -19,22 +19,33 @@ for sid in ids:
     key = prop
     if prop == "C17" and any("zcash_protocol" in f for f in files):
         key = "C17z"
-    crate, cdir = CRATE[key]
+    feats = ""
+    if key in CRATE:
+        crate, cdir = CRATE[key]
+    else:
+        f0 = files[0]
+        for cd, cn, ft in [("zcash_client_backend", "zcash_client_backend", " --features orchard,transparent-inputs,unstable-spanning-tree"),
+                           ("zcash_primitives", "zcash_primitives", ""), ("zcash_history", "zcash_history", ""),
+                           ("zcash_pool_migration", "zcash_pool_migration", ""), ("components/zcash_protocol", "zcash_protocol", ""),
+                           ("zcash_client_sqlite", "zcash_client_sqlite", "")]:
+            if f0.startswith(cd + "/"):
+                cdir, crate, feats = cd, cn, ft
+                break
     run("git checkout -- . && git clean -fdq -e target")
     demo_name = sid.lower().replace("-", "_") + "_demo"
     tdir = os.path.join(WT, cdir, "tests")
     os.makedirs(tdir, exist_ok=True)
     shutil.copyfile(os.path.join(d, "demo.rs"), os.path.join(tdir, demo_name + ".rs"))
     res = {}
-    rc, out = run(f"cargo test --offline -p {crate} --test {demo_name} 2>&1 | tail -5")
+    rc, out = run(f"cargo test --offline -j 6 -p {crate}{feats} --test {demo_name} 2>&1 | tail -5")
     res["demo_without_patch"] = "passes" if "test result: ok" in out else "FAILS"
     rc, out = run(f"git apply {d}/patch.diff")
     res["patch_applies"] = rc == 0
-    rc, out = run(f"cargo test --offline -p {crate} --test {demo_name} 2>&1 | tail -8")
+    rc, out = run(f"cargo test --offline -j 6 -p {crate}{feats} --test {demo_name} 2>&1 | tail -8")
     res["demo_with_patch"] = "fails" if ("test result: FAILED" in out or "error: test failed" in out) else "PASSES"
     os.remove(os.path.join(tdir, demo_name + ".rs"))
     extra = " -p zcash_pool_migration" if crate == "zcash_protocol" else ""
-    rc, out = run(f"cargo test --offline -p {crate}{extra} 2>&1 | grep 'test result\\|error\\[' ")
+    rc, out = run(f"cargo test --offline -j 6 -p {crate}{extra}{feats} 2>&1 | grep 'test result\\|error\\[' ")
     fails = [l for l in out.split("\n") if "FAILED" in l or "error[" in l]
     oks = re.findall(r"test result: ok\. (\d+) passed", out)
     res["existing_tests_with_patch"] = f"pass ({sum(map(int, oks))} tests)" if not fails and oks else "FAIL: " + " | ".join(fails)[:200]
